@@ -57,6 +57,9 @@ type verifRequest struct {
 	// Churn > 0: after every Churn-th datagram of a phase one running worker of Proto's pipeline is told to
 	// quit and a new one is started, the way dynWorkers shrinks and grows the pool while traffic flows
 	Churn int `json:"churn"`
+	// LazyDrain: the message queues are read only after the phase's workers have been joined (a slow consumer:
+	// every published message stays queued while all later datagrams of the phase are decoded and encoded)
+	LazyDrain bool `json:"lazy_drain"`
 
 	// options
 	Args   []string          `json:"args"`
@@ -216,6 +219,9 @@ func verifPipeline(req *verifRequest) (resp verifResponse) {
 			dwg.Add(1)
 			go func() {
 				defer dwg.Done()
+				if req.LazyDrain {
+					<-stop
+				}
 				for {
 					select {
 					case b := <-p.mq:
